@@ -18,6 +18,7 @@ import (
 
 	"github.com/smartcontractkit/chainlink-ccip/commit/chainfee"
 	"github.com/smartcontractkit/chainlink-ccip/commit/merkleroot"
+	"github.com/smartcontractkit/chainlink-ccip/commit/merkleroot/rmn"
 	rmntypes "github.com/smartcontractkit/chainlink-ccip/commit/merkleroot/rmn/types"
 	"github.com/smartcontractkit/chainlink-ccip/commit/tokenprice"
 	"github.com/smartcontractkit/chainlink-ccip/internal/mocks"
@@ -244,11 +245,11 @@ func vC12Disc(r *vRand, c *vC12Cfg, rd []uint64, readsDest bool, fill int, bad s
 	return ca, cList(items)
 }
 
-func vC12Plugin(c *vC12Cfg, me int) *Plugin {
+func vC12Plugin(c *vC12Cfg, me int, rmnOn bool) *Plugin {
 	hc, m := c.homeChain()
 	var rd readerpkg.CCIPReader = &vCCIPReader{}
 	return NewPlugin(1, m,
-		pluginconfig.CommitOffchainConfig{PriceFeedChainSelector: cciptypes.ChainSelector(c.Feed)},
+		pluginconfig.CommitOffchainConfig{PriceFeedChainSelector: cciptypes.ChainSelector(c.Feed), RMNEnabled: rmnOn},
 		cciptypes.ChainSelector(c.Dest), rd, nil, mocks.NewCommitPluginJSONReportCodec(), mocks.NewMessageHasher(),
 		mocks.NullLogger, hc, nil, nil, nil,
 		ocr3types.ReportingPluginConfig{F: 1, N: len(c.Oracles), OracleID: commontypes.OracleID(me)})
@@ -279,16 +280,31 @@ func TestVerif_C12_commit(t *testing.T) {
 		malformed := bad == "malformed"
 		mal := func() bool { return malformed && r.Chance(1, 4) }
 
+		// ---- round context: the verdict is taken in every kind of round.
+		// previous merkle outcome type: 0 (no previous outcome), 1 ReportIntervalsSelected .. 6 ReportTransmissionFailed, 99 out of range;
+		// query: retry flag and / or RMN signatures present; RMN enabled or not; discovery processor present or not;
+		// contracts initialised or not.
+		prevType := vPick(r, []int{0, 1, 1, 2, 3, 4, 5, 6, 99})
+		retry := bad == "retry" || r.Chance(2, 5)
+		sigs := r.Chance(1, 3)
+		rmnOn := r.Bool()
+		discOn := !r.Chance(1, 5)
+		initd := r.Bool()
+		// in a retry round a non-empty merkle part is rejected as such: keep it empty most of the time so that the
+		// other validators decide
+		noMerkle := retry && r.Chance(3, 4)
+		wantM := func() bool { return !noMerkle && want() }
+
 		// ---- merkle root observation
 		var mo merkleroot.Observation
 		var roots, onr, offr []uint64
-		if want() {
+		if wantM() {
 			roots = vC12Subset(r, rd)
 		}
-		if want() {
+		if wantM() {
 			onr = vC12Subset(r, rd)
 		}
-		if want() && readsDest {
+		if wantM() && readsDest {
 			offr = vC12Subset(r, []uint64{5, 6, 11})
 		}
 		switch bad {
@@ -319,7 +335,7 @@ func TestVerif_C12_commit(t *testing.T) {
 			mo.OffRampNextSeqNums = append(mo.OffRampNextSeqNums, plugintypes.SeqNumChain{ChainSel: cciptypes.ChainSelector(ch), SeqNum: 3})
 		}
 		rmnS := "rmn_none"
-		if (want() && readsDest) || bad == "rmncfg" {
+		if (wantM() && readsDest) || bad == "rmncfg" {
 			nsig := r.Range(1, 3)
 			rc := rmntypes.RemoteConfig{ContractAddress: []byte{7}, ConfigDigest: cciptypes.Bytes32{1}, F: uint64(r.Range(0, nsig-1)),
 				ConfigVersion: 1, RmnReportVersion: cciptypes.Bytes32{2}}
@@ -356,7 +372,7 @@ func TestVerif_C12_commit(t *testing.T) {
 				cN(rc.F), cBool(rc.ConfigVersion == 0), cBool(rc.RmnReportVersion == cciptypes.Bytes32{}))
 		}
 		mfcS := "[]"
-		if want() || len(roots)+len(onr)+len(offr) > 0 {
+		if wantM() || len(roots)+len(onr)+len(offr) > 0 {
 			mo.FChain, mfcS = vC12FChain(r, c, mal())
 		}
 		moS := cApp("mkMobs", cListN(roots), cListN(onr), cListN(offr), rmnS, mfcS)
@@ -482,24 +498,40 @@ func TestVerif_C12_commit(t *testing.T) {
 			obs.FChain, fcS = vC12FChain(r, c, mal())
 			obs.DiscoveryObs.FChain = obs.FChain
 		}
-		retry := bad == "retry" || r.Chance(1, 20)
 		q := Query{MerkleRootQuery: merkleroot.Query{RetryRMNSignatures: retry}}
+		if sigs {
+			q.MerkleRootQuery.RMNSignatures = &rmn.ReportSignatures{}
+		}
 		qb, err := q.Encode()
 		if err != nil {
 			t.Fatal(err)
+		}
+		var prevB []byte
+		if prevType != 0 {
+			prev := Outcome{MerkleRootOutcome: merkleroot.Outcome{OutcomeType: merkleroot.OutcomeType(prevType)}}
+			if prevType == 1 {
+				prev.MerkleRootOutcome.RangesSelectedForReport = []plugintypes.ChainRange{{ChainSel: 5, SeqNumRange: cciptypes.NewSeqNumRange(10, 12)}}
+			}
+			if prevB, err = prev.Encode(); err != nil {
+				t.Fatal(err)
+			}
 		}
 		ob, err := obs.Encode()
 		if err != nil {
 			t.Fatal(err)
 		}
-		p := vC12Plugin(c, vPick(r, c.Oracles))
+		p := vC12Plugin(c, vPick(r, c.Oracles), rmnOn)
+		if !discOn {
+			p.discoveryProcessor = nil
+		}
+		p.contractsInitialized.Store(initd)
 		verdict := func() (v string) {
 			defer func() {
 				if e := recover(); e != nil {
 					v = "panic"
 				}
 			}()
-			if err := p.ValidateObservation(ctx, ocr3types.OutcomeContext{}, qb,
+			if err := p.ValidateObservation(ctx, ocr3types.OutcomeContext{SeqNr: 7, PreviousOutcome: prevB}, qb,
 				types.AttributedObservation{Observation: ob, Observer: commontypes.OracleID(o)}); err != nil {
 				return "false"
 			}
@@ -508,14 +540,17 @@ func TestVerif_C12_commit(t *testing.T) {
 		if verdict == "panic" {
 			t.Fatalf("ValidateObservation panicked on case %d", i)
 		}
-		in := cTup(c.coq(), cBool(retry), cNi(o), cApp("mkCobs", moS, toS, foS, dS, fcS))
+		rctx := cTup(cNi(prevType), cBool(sigs), cBool(rmnOn), cBool(discOn), cBool(initd))
+		in := cTup(c.coq(), rctx, cBool(retry), cNi(o), cApp("mkCobs", moS, toS, foS, dS, fcS))
 		nfields := len(roots) + len(onr) + len(offr) + nfeed + len(fqS) + len(comp) + len(nat) + len(upd) + len(ca)
 		if rmnS != "rmn_none" {
 			nfields++
 		}
 		sink.Emit("C12_commit", bad, nfields > 0 && len(unread) > 1, cPair(in, verdict),
 			map[string]any{"oracles": c.Oracles, "readers": c.Readers, "dest": c.Dest, "feed": c.Feed, "observer": o,
-				"injected": bad, "fill": fill, "retry": retry, "observation": string(ob), "accepted": verdict})
+				"injected": bad, "fill": fill, "retry": retry, "prev_outcome_type": prevType, "rmn_signatures_in_query": sigs,
+				"rmn_enabled": rmnOn, "discovery_enabled": discOn, "contracts_initialized": initd,
+				"observation": string(ob), "accepted": verdict})
 	}
 }
 
